@@ -519,7 +519,15 @@ func (s *stdioTransport) processMessage(ctx context.Context, line string, writer
 func (s *stdioTransport) writeResponse(response interface{}, writer io.Writer) error {
 	data, err := json.Marshal(response)
 	if err != nil {
-		return fmt.Errorf("error marshaling response: %w", err)
+		// A result that cannot be encoded is a handler failure: answer the request with -32603 instead of nothing.
+		resp, ok := response.(*JSONRPCResponse)
+		if !ok {
+			return fmt.Errorf("error marshaling response: %w", err)
+		}
+		data, err = json.Marshal(newJSONRPCErrorResponse(resp.ID, ErrCodeInternal, fmt.Sprintf("%v: %v", ErrResponseSerialization, err), nil))
+		if err != nil {
+			return fmt.Errorf("error marshaling response: %w", err)
+		}
 	}
 
 	// Requests are handled concurrently: one frame (payload + newline) must be written at a time.
